@@ -17,6 +17,7 @@ import (
 	"fmt"
 	"io"
 	"log"
+	"math"
 	"os"
 	"path"
 
@@ -111,7 +112,13 @@ func compileBatches(in io.Reader, codec *dnsdata.Codec, destPath string, opts Co
 		batchSize = DefaultBatchSize
 	}
 
-	limiter := make(chan struct{}, opts.BatchNumParallel)
+	// BatchNumParallel <= 0 means "unlimited" (the dnsrocks-data default): it must
+	// not become an unbuffered channel, which blocks the first full batch forever.
+	numParallel := opts.BatchNumParallel
+	if numParallel <= 0 {
+		numParallel = math.MaxInt32 // chan struct{} allocates no element storage
+	}
+	limiter := make(chan struct{}, numParallel)
 	defer close(limiter)
 
 	db, err = NewRDB(destPath)
